@@ -76,7 +76,7 @@ def after_loop_constant_only(loop):
     return True, ''
 
 
-def judge(repo, fi, pname, uses, search):
+def judge(repo, fi, pname, uses, search, cons=None, depth=0):
     """-> list of (use, reason) that break laziness."""
     bad = []
     gen = consume.is_generator(fi.node)
@@ -128,6 +128,32 @@ def judge(repo, fi, pname, uses, search):
         if m == 'eager' and u.detail in SHORT_CIRCUIT_EAGER and \
                 u.via == 'genexp':
             continue
+        if m in ('callee-loop', 'callee-eager') and cons is not None and \
+                depth < 3:
+            # handed to a repo helper: the helper is judged by the same
+            # rule, provided its result is returned as it is
+            call = u.node
+            while call is not None and not isinstance(call, ast.Call):
+                call = getattr(call, '_parent', None)
+            par = getattr(call, '_parent', None) if call is not None \
+                else None
+            tgt = repo.func(u.detail) if ':' in (u.detail or '') else None
+            if tgt is not None and isinstance(par, ast.Return) and \
+                    call is not None:
+                idx = [i for i, a in enumerate(call.args) if any(
+                    x is u.node for x in ast.walk(a))]
+                names = tgt.params()
+                if tgt.is_method:
+                    names = names[1:]
+                if idx and idx[0] < len(names):
+                    q = names[idx[0]]
+                    bad2, _ = judge(repo, tgt, q, cons.uses(tgt, q), search,
+                                    cons, depth + 1)
+                    if not bad2:
+                        continue
+                    bad.append((u, 'hands the source to %s, which %s' % (
+                        tgt.qualname, bad2[0][1])))
+                    continue
         if m == 'libcall':
             bad.append((u, 'hands the source to %s, a library callable not '
                         'known to be lazy' % u.detail))
@@ -166,7 +192,7 @@ def check_table(repo, rep, uni, cons, table, rule, search, armed=True):
                     uses = cons.uses(fi, p.name)
                 else:
                     uses = cons.uses(fi, p.name)
-                bad, consuming = judge(repo, fi, p.name, uses, search)
+                bad, consuming = judge(repo, fi, p.name, uses, search, cons)
                 site = '%s/%s[%s]' % (fi.key, p.name, name)
                 if not armed:
                     rep.note('%s %s: %s' % (name, fi.key, 'lazy' if not bad
